@@ -27,4 +27,7 @@ def run(ctx, rep):
     # X6: where an entity's file goes depends on its own namespace only - every kind of entity is filed under the same package path, so
     # removing (ignoring) the first entity of a scope cannot move its neighbours (= C10/T3)
     rep.run(RM.rule_package_paths, ctx, rep, "X6")
+    # X7: nothing computed for one class is carried into the text of the classes that follow it in the same loop
+    rep.run(RF.rule_no_state_carried_between_elements, ctx, rep, "X7")
+    rep.run(RM.rule_ignore_list_kept_as_given, ctx, rep, "X8")
     rep.run(RF.rule_locals_defined, ctx, rep, "U1", packages=("gtwrap/matlab_wrapper", "gtwrap/pybind_wrapper.py"), min_functions=3)
